@@ -3,6 +3,7 @@
 package jobs
 
 import (
+	"reflect"
 	"sort"
 	"sync"
 )
@@ -50,4 +51,11 @@ func (runner *Runner) VerifTickets() (full, incr int, running []string) {
 	}
 	sort.Strings(running)
 	return r.ticketsFull, r.ticketsIncr, running
+}
+
+// VerifRunningIsCopy tells whether the listing of running jobs works on a copy: the live map changes whenever
+// a run starts or ends, and iterating it outside the raffle lock ends the process.
+func (runner *Runner) VerifRunningIsCopy() bool {
+	m := runner.raffle.getRunningJobs()
+	return reflect.ValueOf(m).Pointer() != reflect.ValueOf(runner.raffle.runningJobs).Pointer()
 }
